@@ -8,6 +8,8 @@
  *    K                   the process is being killed now
  * $KILLW_AT = k (1-based, over tracked writes): the k-th tracked write lets only $KILLW_BYTES bytes through
  * (-1 or unset: the whole buffer), then the process SIGKILLs itself: nothing buffered in user space survives.
+ * $KILLW_AT_OPEN = k (1-based, over tracked opens): the process SIGKILLs itself right after its k-th tracked open
+ * (the file is created / truncated by then).
  */
 #define _GNU_SOURCE
 #include <dlfcn.h>
@@ -20,7 +22,7 @@
 #include <sys/uio.h>
 #include <unistd.h>
 
-static long cnt = 0, killat = -1, killbytes = -1;
+static long cnt = 0, killat = -1, killbytes = -1, ocnt = 0, killopen = -1;
 static int logfd = -1, inited = 0;
 
 static void init(void)
@@ -31,6 +33,8 @@ static void init(void)
   if (e) killat = atol(e);
   e = getenv("KILLW_BYTES");
   if (e) killbytes = atol(e);
+  e = getenv("KILLW_AT_OPEN");
+  if (e) killopen = atol(e);
   e = getenv("KILLW_LOG");
   if (e) logfd = (int)syscall(SYS_openat, AT_FDCWD, e, O_WRONLY | O_CREAT | O_APPEND, 0644);
 }
@@ -118,6 +122,7 @@ static void log_open(const char * p)
     char line[4300];
     snprintf(line, sizeof line, "O %s\n", p);
     logline(line);
+    if (++ocnt == killopen) die();
   }
 }
 
